@@ -1,0 +1,57 @@
+//go:build verif
+
+package value
+
+// Machine-checked contracts for the element counts and indexed access of String
+// (see /verif/DESIGN.md, C20).  This file contains no declarations: it only carries
+// specification comments that the elkvc verification-condition generator reads.
+
+/*@
+// ---- lengths -------------------------------------------------------------------------------
+// `byte_count` is the number of bytes, `length` the number of code points as
+// utf8.RuneCountInString counts them (a byte that is not part of a valid encoding counts one):
+// the same count the char iterator produces elements for.
+spec fn runes(s String) int = utf8.RuneCountInString(string(s))
+
+func (String).String
+  props C20
+  assigns nothing
+  ensures ret == string(s)
+
+func (String).ByteCount
+  props C20
+  assigns nothing
+  ensures ret == len(s)
+
+func (String).CharCount
+  props C20
+  assigns nothing
+  ensures ret == runes(s)
+
+// ---- byte_at ---------------------------------------------------------------------------------
+// indices -len..len-1 are valid, negative ones count from the end; everything else is an
+// IndexError and never a Go panic
+func (String).ByteAtInt
+  props C20
+  assigns fresh
+  ensures in: 0 <= index && index < len(s) ==> ret1 == Undefined && ret0 == s[index]
+  ensures neg: -len(s) <= index && index < 0 ==> ret1 == Undefined && ret0 == s[len(s) + index]
+  ensures out: (index >= len(s) || index < -len(s)) ==> isErr(ret1, IndexErrorClass)
+
+// ---- rjust / ljust -----------------------------------------------------------------------------
+// "justified to the given length": the result has `targetLen` characters (String#length counts
+// code points) unless the string is already that long, in which case it is returned as it is.
+func (String).RJust
+  props C20
+  ensures keep: runes(s) >= targetLen ==> ret == s
+  ensures pad: runes(s) < targetLen ==> runes(ret) == targetLen
+  loop 1
+    invariant ghost(sbrunes, &buff) == range_idx && ghost(sbopen, &buff) == 0
+
+func (String).LJust
+  props C20
+  ensures keep: runes(s) >= targetLen ==> ret == s
+  ensures pad: runes(s) < targetLen ==> runes(ret) == targetLen
+  loop 1
+    invariant ghost(sbrunes, &buff) == runes(s) + range_idx
+@*/
